@@ -287,7 +287,8 @@ func logScaleConfig(n *docNode) bool {
 		return false
 	}
 	name := n.F["Name"].S
-	if strings.Contains(name, "mixture") || strings.Contains(name, "hmm") || strings.Contains(name, "categorical") {
+	if strings.Contains(name, "mixture") || strings.Contains(name, "hmm") || strings.Contains(name, "categorical") ||
+		strings.Contains(name, "binomial") {
 		return true
 	}
 	if d := n.F["Distributions"]; d != nil {
@@ -300,14 +301,33 @@ func logScaleConfig(n *docNode) bool {
 	return false
 }
 
-func closeEnough(a, b float64, tolerant bool) bool {
+// the constrained HMM re-normalises its transition matrix with an iterative
+// solver when it is constructed: only the solver's precision can be expected
+func iterativeConfig(n *docNode) bool {
+	if n == nil || n.T != "obj" || n.F["Name"] == nil {
+		return false
+	}
+	if strings.Contains(n.F["Name"].S, "constrained") {
+		return true
+	}
+	if d := n.F["Distributions"]; d != nil {
+		for _, c := range d.V {
+			if iterativeConfig(c) {
+				return true
+			}
+		}
+	}
+	return false
+}
+
+func closeEnough(a, b float64, tol float64) bool {
 	if math.Float64bits(a) == math.Float64bits(b) || (math.IsNaN(a) && math.IsNaN(b)) {
 		return true
 	}
-	if !tolerant {
+	if tol == 0 {
 		return false
 	}
-	return math.Abs(a-b) <= 1e-12*(1+math.Abs(a)+math.Abs(b))
+	return math.Abs(a-b) <= tol*(1+math.Abs(a)+math.Abs(b))
 }
 
 var pts = []float64{0, 0.3, 1, 2, 1.5, 3, 0.75}
@@ -599,7 +619,13 @@ func (r *runner) runDist(ci int, c *tcase, raw json.RawMessage) {
 			r.distReport(c, raw, "decode_error", err.Error(), doc)
 			return
 		}
-		tolerant := logScaleConfig(c.Obj.Cfg)
+		tolerant := 0.0
+		if logScaleConfig(c.Obj.Cfg) {
+			tolerant = 1e-12
+		}
+		if iterativeConfig(c.Obj.Cfg) {
+			tolerant = 1e-7
+		}
 		p1, pp1 := paramsOf(d)
 		p2, pp2 := paramsOf(imp)
 		if pp1 == "" && pp2 != "" {
@@ -654,12 +680,19 @@ func (r *runner) runDist(ci int, c *tcase, raw json.RawMessage) {
 		r.distReport(c, raw, "corrupt_object", "panic while using the imported distribution: "+p, mut)
 		return
 	}
-	// the densities of the original are defined at the probe points: a
-	// well-formed import must not crash there either
-	for k := 0; k < 3; k++ {
-		if evalAt(d, k) != "panic" && evalAt(imp, k) == "panic" {
-			r.distReport(c, raw, "corrupt_object", fmt.Sprintf("LogPdf of the imported distribution panics at point %d", k), mut)
-			return
+	// The import may be a different (still valid) distribution whose support
+	// excludes some probe points; it is corrupt only if its density cannot be
+	// evaluated anywhere although the original can.
+	okOrig, okImp := 0, 0
+	for k := 0; k < 5; k++ {
+		if evalAt(d, k) != "panic" {
+			okOrig++
 		}
+		if evalAt(imp, k) != "panic" {
+			okImp++
+		}
+	}
+	if okOrig > 0 && okImp == 0 {
+		r.distReport(c, raw, "corrupt_object", "LogPdf of the imported distribution panics at every probe point", mut)
 	}
 }
